@@ -79,10 +79,13 @@ Ltac pre_hyps :=
   | H : Ok _ = Exc _ |- _ => discriminate H
   | H : Exc _ = Ok _ |- _ => discriminate H
   end.
+Ltac qsearch n :=
+  first [ solve [qfin] | solve [left; qfin] | solve [right; eexists; reflexivity]
+        | lazymatch n with O => fail | S ?m => case1; qsearch m end ].
 Ltac qsolve0 :=
   unfold QI, QF, QK; repeat split; unf; intros; pre_hyps; unf; psimpl; rw_hyps; rw_eqs; cbn beta iota in *;
   try reflexivity; try assumption; try (f_equal; try reflexivity);
-  repeat (first [ solve [qfin] | solve [left; qfin] | solve [right; eexists; reflexivity] | case1 ]).
+  qsearch 4%nat.
 (* forward chaining through the frames of the calls made so far *)
 Ltac chain :=
   repeat match goal with
@@ -92,7 +95,7 @@ Ltac chain :=
     lazymatch type of A with Prop => idtac end;
     let H := fresh "C" in assert (H : A) by (clear P; first [ exact I | solve [qsolve0] ]); specialize (P H)
   end.
-Ltac qsolve := first [ solve [qsolve0] | unfold QI, QF, QK; repeat split; intros; chain; solve [qsolve0] ].
+Ltac qsolve := first [ solve [qsolve0] | unfold QI, QF, QK, R1, R2, guard; repeat split; intros; chain; solve [qsolve0] ].
 
 Ltac kind_fact :=
   try match goal with
